@@ -189,10 +189,16 @@ impl Repl {
                 if is_helper {
                     let prog0 = parsed_program[0].clone();
                     let name = second_of_alist(prog0.clone())?;
-                    let built_program = program_with_helper(vec![name], prog0);
+                    let built_program = program_with_helper(vec![name], prog0.clone());
                     let program = frontend(self.opts.clone(), &[built_program])?;
-                    self.evaluator
-                        .add_helper(&program.helpers[program.helpers.len() - 1]);
+                    if let Some(new_helper) = program.helpers.last() {
+                        self.evaluator.add_helper(new_helper);
+                    } else {
+                        return Err(CompileErr(
+                            prog0.loc(),
+                            format!("not a definition the repl can use: {prog0}"),
+                        ));
+                    }
                     Ok(Some(Rc::new(BodyForm::Quoted(SExp::Nil(self.loc.clone())))))
                 } else {
                     frontend(self.opts.clone(), &parsed_program)
